@@ -230,10 +230,54 @@ func (w *world) apply(m Mut) map[string][]byte {
 	return out
 }
 
+// dataMut applies a data-file mutation (ops dtrunc, dflip, dgarbage, dempty, ddelete) to the originals.
+func (w *world) dataMut(m Mut) map[string][]byte {
+	st := map[string][]byte{}
+	for n, d := range w.orig {
+		st[n] = d
+	}
+	name := w.names[m.File%len(w.names)]
+	d := w.orig[name]
+	switch m.Op {
+	case "dtrunc":
+		off := m.Off
+		if off > len(d) {
+			off = len(d)
+		}
+		st[name] = d[:off]
+	case "dflip":
+		if len(d) > 0 {
+			c := append([]byte{}, d...)
+			c[m.Off%len(d)] ^= 1 << uint(m.Bit%8)
+			st[name] = c
+		}
+	case "dgarbage":
+		st[name] = garbage(len(d), uint64(m.Off)+9)
+	case "dempty":
+		st[name] = []byte{}
+	case "ddelete":
+		delete(st, name)
+	}
+	return st
+}
+
 func (w *world) check(c Case) (msg, key string, parsed bool) {
 	arch := w.apply(c.Mut)
 	want := map[string][]byte{}
-	for n, d := range w.dataState[c.Data&3] {
+	dataMutated := strings.HasPrefix(c.Mut.Op, "d") && c.Mut.Op != "delete"
+	if dataMutated {
+		arch = map[string][]byte{}
+		for n, d := range w.archData {
+			arch[n] = d
+		}
+		st := w.dataMut(c.Mut)
+		w.dataState[9] = st
+		if w.base.Format == "par2" {
+			w.locs[9] = model.Locate(w.base.Slice, w.prot, st)
+		}
+		c.Data = 9
+	}
+	for n, d := range w.dataState[c.Data&15] {
 		want[n] = d
 	}
 	for n, d := range arch {
@@ -243,6 +287,9 @@ func (w *world) check(c Case) (msg, key string, parsed bool) {
 	name := w.arch[c.Mut.File%len(w.arch)]
 	_, present := arch[name]
 	parsed = present && c.Mut.Op != "delete" && c.Mut.Op != "subset"
+	if dataMutated {
+		parsed = true
+	}
 
 	// known-finding signatures
 	if w.base.Format == "par2" {
@@ -258,6 +305,9 @@ func (w *world) check(c Case) (msg, key string, parsed bool) {
 		if c.Mut.Op == "trunc" || c.Mut.Op == "prefix" {
 			key = "D3-volume-without-main-packet"
 		}
+		if dataMutated {
+			key = ""
+		}
 	}
 
 	idx := filepath.Join(w.dir, "set.par2")
@@ -272,7 +322,7 @@ func (w *world) check(c Case) (msg, key string, parsed bool) {
 			return "Verify panicked: " + m, key, parsed
 		}
 		if verr == nil {
-			loc := w.locs[c.Data&3]
+			loc := w.locs[c.Data&15]
 			if vr.ShardCounts.UsableDataShardCount > loc.NMay {
 				return fmt.Sprintf("Verify counts %d usable slices, only %d exist", vr.ShardCounts.UsableDataShardCount, loc.NMay), "", parsed
 			}
@@ -296,7 +346,7 @@ func (w *world) check(c Case) (msg, key string, parsed bool) {
 			}
 			allOK := true
 			for n, d := range w.orig {
-				if s, ok := w.dataState[c.Data&3][n]; !ok || !bytes.Equal(s, d) {
+				if s, ok := w.dataState[c.Data&15][n]; !ok || !bytes.Equal(s, d) {
 					allOK = false
 				}
 			}
@@ -322,7 +372,7 @@ func (w *world) check(c Case) (msg, key string, parsed bool) {
 		if verr == nil {
 			okData := 0
 			for n, d := range w.orig {
-				if s, ok := w.dataState[c.Data&3][n]; ok && bytes.Equal(s, d) {
+				if s, ok := w.dataState[c.Data&15][n]; ok && bytes.Equal(s, d) {
 					okData++
 				}
 			}
@@ -509,6 +559,42 @@ func (w *world) enumerate(thorough bool) []Mut {
 	for mask := 1; mask < 1<<uint(len(w.arch)); mask++ {
 		ms = append(ms, Mut{Op: "subset", Mask: mask})
 	}
+	// the protected files themselves: truncation at every boundary that matters (thorough: every offset), flips, garbage, emptying
+	S := w.base.Slice
+	if S == 0 {
+		S = 64
+	}
+	for fi, n := range w.names {
+		L := len(w.orig[n])
+		cuts := map[int]bool{0: true, 1: true, L - 1: true, L / 2: true, 16383: true, 16384: true, 16385: true}
+		for k := 0; k*S <= L; k++ {
+			if thorough || k < 6 || k*S > L-3*S || (k*S >= 16384-S && k*S <= 16384+S) {
+				cuts[k*S], cuts[k*S-1], cuts[k*S+1] = true, true, true
+			}
+		}
+		if thorough {
+			for o := 0; o < L; o += 1 + L/3000 {
+				cuts[o] = true
+			}
+		}
+		var cl []int
+		for o := range cuts {
+			if o >= 0 && o < L {
+				cl = append(cl, o)
+			}
+		}
+		sort.Ints(cl)
+		for _, o := range cl {
+			ms = append(ms, Mut{Op: "dtrunc", File: fi, Off: o})
+		}
+		for k := 0; k < 24; k++ {
+			ms = append(ms, Mut{Op: "dflip", File: fi, Off: (k*L)/24 + k, Bit: k})
+		}
+		for _, o := range []int{16383, 16384, L - 1} {
+			ms = append(ms, Mut{Op: "dflip", File: fi, Off: o, Bit: 3})
+		}
+		ms = append(ms, Mut{Op: "dgarbage", File: fi, Off: 1}, Mut{Op: "dempty", File: fi}, Mut{Op: "ddelete", File: fi})
+	}
 	return ms
 }
 
@@ -545,6 +631,8 @@ func mutClass(w *world, m Mut) string {
 			return "flip-par1-header"
 		}
 		return "flip-par1-entry-or-data"
+	case "dtrunc", "dflip", "dgarbage", "dempty", "ddelete":
+		return "data-file-" + m.Op[1:]
 	case "prefix":
 		return "interrupted-create"
 	case "subset":
@@ -591,6 +679,9 @@ func TestCheck(t *testing.T) {
 				if ds == 3 && m.Op != "prefix" && m.Op != "subset" {
 					continue
 				}
+				if ds > 0 && strings.HasPrefix(m.Op, "d") && m.Op != "delete" {
+					continue
+				}
 				i++
 				if !cfg.Mine(i) {
 					continue
@@ -601,7 +692,7 @@ func TestCheck(t *testing.T) {
 				rec.Class(b.Format + ":" + cl)
 				msg, key, parsed := w.check(c)
 				if msg != "" {
-					if rec.Fail(b.Format+"-"+m.Op, c, key, fmt.Sprintf("%s [%s file=%s off=%d bit=%d data=%d]", msg, m.Op, w.arch[m.File%len(w.arch)], m.Off, m.Bit, ds)) != "" && rec.NViolations() > 6 {
+					if rec.Fail(b.Format+"-"+m.Op, c, key, fmt.Sprintf("%s [%s file=%s off=%d bit=%d data=%d]", msg, m.Op, mutTarget(w, m), m.Off, m.Bit, ds)) != "" && rec.NViolations() > 6 {
 						return false
 					}
 					continue
@@ -623,6 +714,15 @@ func TestCheck(t *testing.T) {
 				}
 				w.close()
 			}
+		}
+	}
+	bigBases := []Base{
+		{Format: "par2", Slice: 64, N: 3, Files: []scen.FileSpec{{Name: "a.dat", Size: 16384 + 200, Kind: "random", Seed: 41}, {Name: "sub/b.bin", Size: 100, Kind: "random", Seed: 42}}},
+		{Format: "par1", N: 2, Files: []scen.FileSpec{{Name: "a.dat", Size: 16384 + 200, Kind: "random", Seed: 43}, {Name: "b.bin", Size: 50, Kind: "random", Seed: 44}}},
+	}
+	for i, b := range bigBases {
+		if !runBase(b, 1000+i) {
+			break
 		}
 	}
 	// base sets are drawn with rapid (same seed in every shard, so all shards see the same bases and split the states)
@@ -655,4 +755,11 @@ func TestCheck(t *testing.T) {
 			rt.Fatalf("C13 par1 failed")
 		}
 	})
+}
+
+func mutTarget(w *world, m Mut) string {
+	if strings.HasPrefix(m.Op, "d") && m.Op != "delete" {
+		return w.names[m.File%len(w.names)]
+	}
+	return w.arch[m.File%len(w.arch)]
 }
